@@ -192,12 +192,23 @@ impl World {
                 let n = es.next_counterparty_commit_num;
                 // the counterparty first revokes the commitment before its current one (it has done so
                 // by the time it asks for a new one); until then the current one may be re-signed
-                if n >= 2 && es.next_counterparty_revoke_num + 2 == n {
+                let revoked = n >= 2 && es.next_counterparty_revoke_num + 2 == n;
+                if revoked {
                     let sk = tree_secret(&TREE_A, n - 2);
                     node.with_channel(&cc.channel_id, |chan| chan.validate_counterparty_revocation(n - 2, &sk))
                         .map_err(|e| Status::internal(format!("harness: revocation refused: {}", e.message())))?;
                 }
-                self.sign_cp(cc, n, off, rcv)
+                let r = self.sign_cp(cc, n, off, rcv);
+                if r.is_err() && revoked {
+                    // the request as a whole was refused: take the revocation back as well (it does
+                    // not touch the ledger), so that the current commitment stays re-signable
+                    let id = node.get_id();
+                    node.with_channel(&cc.channel_id, |chan| {
+                        chan.enforcement_state = es.clone();
+                        self.fx.store.update_channel(&id, chan).map_err(|_| Status::internal("harness: persist"))
+                    })?;
+                }
+                r
             }
             "SignCpRetry" => {
                 let cc = self.chan(r["ch"].as_str().unwrap());
